@@ -24,6 +24,8 @@ pub struct CfgNode {
     node: RefCell<ParserNode>,
     /// Any labels that refer to this instruction.
     pub labels: HashSet<LabelStringToken>,
+    /// The same labels, in the order in which the program defines them.
+    labels_in_order: Vec<LabelStringToken>,
     /// Which segment is this node in?
     segment: Segment,
     /// CFG nodes that come after this one (forward edges).
@@ -83,10 +85,11 @@ pub struct CfgNode {
 
 impl CfgNode {
     #[must_use]
-    pub fn new(node: ParserNode, labels: HashSet<LabelStringToken>, segment: Segment) -> Self {
+    pub fn new(node: ParserNode, labels: Vec<LabelStringToken>, segment: Segment) -> Self {
         CfgNode {
             node: RefCell::new(node),
-            labels,
+            labels: labels.iter().cloned().collect(),
+            labels_in_order: labels,
             segment,
             nexts: RefCell::new(HashSet::new()),
             prevs: RefCell::new(HashSet::new()),
@@ -269,6 +272,11 @@ impl CfgNode {
 
     pub fn labels(&self) -> HashSet<LabelStringToken> {
         self.labels.clone()
+    }
+
+    /// The labels of this node in program order (also across included files).
+    pub fn labels_in_order(&self) -> Vec<LabelStringToken> {
+        self.labels_in_order.clone()
     }
 
     /// Get the segment that this node is in.
